@@ -7,6 +7,7 @@ Decided by Rename.tla (Preserved, for every program in bounds under every option
     occurrence counts of each listed name, identity of the output's shape with the un-preserved output, and a run of both.
 """
 import ast
+import base64
 import itertools
 import random
 
@@ -165,6 +166,75 @@ def occurrence_table(src):
     return ids
 
 
+def string_forms_remote(args, rep):
+    """the single-string form on every interpreter that runs the minifier: a name given as the interpreter's `str` and as its text type
+    (`unicode` on 2.7 - what a module with `from __future__ import unicode_literals` passes); the output is read back here"""
+    from .. import pool
+    src = MODULE.replace('{ALL}', '').replace('{DIR}', 'False')
+    ids = identifiers(src)
+    from ..common import available_versions
+    versions = available_versions() if args.tier != 'quick' else available_versions(['2.7', '3.8', '3.13'])
+    base_jobs = []
+    for (rl, rg) in ((True, True), (True, False), (False, True)):
+        for pl in [x for x in LOCAL_LISTS if len(x) <= 1]:
+            for pg in [x for x in GLOBAL_LISTS if len(x) <= 1]:
+                if not pl and not pg:
+                    continue
+                for kind in ('text', 'native'):
+                    o = {'rename_locals': rl, 'rename_globals': rg}
+                    if pl:
+                        o['preserve_locals'] = pl[0] if kind == 'text' else {'native': pl[0]}
+                    if pg:
+                        o['preserve_globals'] = pg[0] if kind == 'text' else {'native': pg[0]}
+                    listed = []
+                    if rl:
+                        listed += [(n, 'l') for n in pl if n in ids and n not in ('len',)]
+                    if rg:
+                        listed += [(n, 'g') for n in pg if n in ids and n not in ('print', 'len')]
+                    base_jobs.append({'id': 'strform|%d%d|L=%s|G=%s|%s' % (rl, rg, ','.join(pl), ','.join(pg), kind), 'opts': o, 'listed': sorted(set(listed))})
+    records, keep = [], {}
+    for v in versions:
+        reqs = []
+        for j in base_jobs:
+            reqs.append({'op': 'minify', 'id': v + '|' + j['id'], 'src_b64': inputs.b64(src.encode()), 'opts': j['opts']})
+        for (rl, rg) in ((True, True), (True, False), (False, True)):
+            reqs.append({'op': 'minify', 'id': '%s|base|%d%d' % (v, rl, rg), 'src_b64': inputs.b64(src.encode()), 'opts': {'rename_locals': rl, 'rename_globals': rg}})
+        res = pool.run_requests(v, reqs, timeout=120)
+        rep.evaluations += len(reqs)
+        for j in base_jobs:
+            rid = v + '|' + j['id']
+            r = res[rid]
+            b = res['%s|base|%s' % (v, j['id'].split('|')[1])]
+            rec = {'id': rid, 'outcome': 'return', 'names': [], 'same_shape': True, 'ran': False, 'run_in': '', 'run_out': ''}
+            if r.get('worker_error') or b.get('worker_error'):
+                from ..common import MachineryError
+                raise MachineryError('worker failed on %s: %s' % (rid, r.get('worker_error') or b.get('worker_error')))
+            if r.get('outcome') != 'return' or b.get('outcome') != 'return':
+                rec['outcome'] = r.get('outcome') if r.get('outcome') != 'return' else str(b.get('outcome'))
+            else:
+                out = base64.b64decode(r['out_b64']).decode()
+                ids_out = identifiers(out)
+                for name, _kind in j['listed']:
+                    rec['names'].append({'name': name, 'count_in': ids.count(name), 'count_out': ids_out.count(name)})
+                rec['same_shape'] = shape(out) == shape(base64.b64decode(b['out_b64']).decode())
+                rec['ran'] = True
+                rec['run_in'] = run_prog(src)
+                rec['run_out'] = run_prog(out)
+                keep[rid] = (out, j)
+            if j['listed']:
+                rep.nontrivial.add(sha(rid))
+            records.append(rec)
+    verdicts, judged = tlc.judge('Trace_Preserve', 'Trace_Preserve.cfg', records, tag='C10s')
+    rep.add_judged(judged)
+    for rid, vd in sorted(verdicts.items()):
+        out, j = keep.get(rid, ('', None))
+        rep.violation(key=rid + '|' + vd[0], clause=vd[0], what='%s\n--- output:\n%s' % (rid, out[:800]),
+                      replay={'kind': 'minify', 'version': rid.split('|')[0], 'src_b64': inputs.b64(src.encode()),
+                              'opts': next(x['opts'] for x in base_jobs if rid.endswith(x['id']))})
+    rep.extra['string_form_jobs'] = len(records)
+    rep.extra['string_form_versions'] = list(versions)
+
+
 def run(args, rep):
     rng = random.Random(args.seed)
     _rename.model(rep, args.tier)
@@ -230,6 +300,7 @@ def run(args, rep):
         rep.violation(key=rid + '|' + v[0], clause=v[0], what='%s\n--- output:\n%s' % (rid, str(keep[rid].get('_out'))[:800]),
                       replay={'kind': 'minify', 'version': '3.12', 'src_b64': inputs.b64(jb[rid]['src'].encode()), 'opts': jb[rid]['opts']})
     rep.sample({'job': jobs[5]['id'], 'listed': jobs[5]['listed'], 'observed': records[5]['names']})
+    string_forms_remote(args, rep)
     rep.exhaustive = False
     rep.rule = ('(a) enumerated scope programs of Rename.tla with x in preserve_locals / preserve_globals / both; (b) a module with locals, parameters, nested functions, '
                 'a comprehension, classes and globals x 5 __all__ forms x 3 (rename_locals, rename_globals) pairs x 8 local lists x 7 global lists x list/string form, '
